@@ -6,7 +6,7 @@
 //! Oracle: byte equality of all archives of one (source, options, writer) group.
 use super::ccommon::{self, CCase, Injection, Writer};
 use crate::evidence::{Report, Tier};
-use crate::proc::Exit;
+use crate::proc::{self, Exit};
 use crate::refimpl::chunker as r1;
 use crate::scn;
 use crate::util::{first_diff, par_map, short_id, Rng};
@@ -115,6 +115,64 @@ fn group(rep: &Report, idx: usize, base: &CCase, reps: usize, seed: u64, keep: b
     res
 }
 
+/// Memory pressure: the C encoders (lzma, zstd) report an allocation failure as an error,
+/// and how many encoders are alive at once depends on --buffered-chunks and scheduling.
+/// Under an address-space limit a run may therefore fail — loudly — but a run that exits
+/// 0 must still have written the reference bytes.
+fn memory_pressure_group(rep: &Report, idx: usize, seed: u64) -> Option<String> {
+    use crate::refimpl::chunker::Cfg;
+    let mut rng = Rng::new(seed).fork(0x12a0 + idx as u64);
+    let dir = scn::case_dir("C12", 70_000 + idx);
+    let res = (|| -> Result<(), String> {
+        // (codec level, limit): an lzma level-9 encoder needs ~ 674 MiB, level 7 ~ 186 MiB
+        let (comp, limit_mib) = *rng.pick(&[(crate::gen::Comp::Lzma(9), 1500u64), (crate::gen::Comp::Lzma(9), 2200), (crate::gen::Comp::Lzma(7), 600), (crate::gen::Comp::Lzma(8), 1100)]);
+        let n = rng.urange(8_000, 20_000);
+        let src_len = n * rng.urange(8, 16) + rng.urange(0, n - 1);
+        let source = crate::gen::gen_source(&mut rng, crate::gen::SrcClass::LowEntropy, src_len);
+        let mut spec = scn::CompressSpec::new(Cfg::fixed(n), comp, 64);
+        spec.buffered = Some(1);
+        let (mut run, out_path) = scn::compress_run(&dir, "ref", &source, &spec);
+        run.use_shim = false;
+        run.timeout = std::time::Duration::from_secs(300);
+        let o = proc::run(&run);
+        rep.eval();
+        if !o.exit.ok() {
+            rep.inconclusive("memory-pressure reference run did not succeed");
+            return Ok(());
+        }
+        let reference = std::fs::read(&out_path).map_err(|e| e.to_string())?;
+        for (k, b) in [1usize, 2, 8, 64].into_iter().enumerate() {
+            spec.buffered = Some(b);
+            let (mut run, out_path) = scn::compress_run(&dir, &format!("r{}", k), &source, &spec);
+            run.use_shim = false;
+            run.rlimit_as = Some(limit_mib << 20);
+            run.timeout = std::time::Duration::from_secs(300);
+            let o = proc::run(&run);
+            rep.eval();
+            if o.exit == Exit::Timeout {
+                rep.inconclusive("watchdog (memory pressure)");
+                continue;
+            }
+            if !o.exit.ok() {
+                rep.count("memory_pressure.runs_that_failed_loudly", 1);
+                continue;
+            }
+            rep.count("memory_pressure.runs_that_succeeded", 1);
+            let bytes = std::fs::read(&out_path).map_err(|e| e.to_string())?;
+            if bytes != reference {
+                return Err(format!(
+                    "{} under an address-space limit of {} MiB with --buffered-chunks {}: exit 0 but the archive differs from the unconstrained run (lengths {} vs {}, first difference at byte {:?})",
+                    comp.describe(), limit_mib, b, bytes.len(), reference.len(), first_diff(&reference, &bytes)
+                ));
+            }
+        }
+        rep.nontrivial(format!("mem:{}:{}:{}", comp.describe(), limit_mib, idx));
+        Ok(())
+    })();
+    scn::cleanup(&dir, res.is_err());
+    res.err()
+}
+
 pub fn run(tier: Tier, seed: u64) -> i32 {
     let rep = Report::new("C12", "exploration", tier, seed);
     let groups = tier.pick(56, 420);
@@ -143,6 +201,16 @@ pub fn run(tier: Tier, seed: u64) -> i32 {
         let r = group(&rep, i, &case, if i >= groups { reps.min(6) } else { reps }, seed ^ 0xc12, true);
         (i, case, r)
     });
+    {
+        let nm = tier.pick(4, 32);
+        // few at a time: every encoder of a level-9 run holds several hundred MiB
+        let out = par_map(nm, 4, |i| (i, memory_pressure_group(&rep, i, seed)));
+        for (i, r) in out {
+            if let Some(why) = r {
+                rep.violation("c12/memory-pressure/archives differ", json!({"why": why}), json!({"engine": "memory", "idx": i, "seed": seed}));
+            }
+        }
+    }
     for (i, case, r) in results {
         for fp in &r.fingerprints {
             rep.seen("completion_order_fingerprints", format!("{}:{}", i, fp));
@@ -194,6 +262,20 @@ pub fn run(tier: Tier, seed: u64) -> i32 {
 
 pub fn replay(v: &Value) -> i32 {
     let r = &v["replay"];
+    if r["engine"] == "memory" {
+        let rep = Report::new("C12", "exploration", Tier::Quick, r["seed"].as_u64().unwrap_or(1));
+        return match memory_pressure_group(&rep, r["idx"].as_u64().unwrap_or(0) as usize, r["seed"].as_u64().unwrap_or(1)) {
+            Some(why) => {
+                println!("replay: VIOLATED: {}", why);
+                println!("VIOLATION property=C12 replay=(replayed)");
+                1
+            }
+            None => {
+                println!("replay: property held on this case");
+                0
+            }
+        };
+    }
     let case = CCase::from_json(&r["case"]);
     let mut rep = Report::new("C12", "exploration", Tier::Quick, 0);
     rep.replay_mode = true;
